@@ -25,7 +25,8 @@ uint8_t nondet_u8(void); uint16_t nondet_u16(void); uint32_t nondet_u32(void); u
 #define OBSERVE(x) ((void)0)
 #define OBSERVE_STR(x) ((void)0)
 #define WITNESS(label) __CPROVER_assert(0, "WITNESS:" label)
-#define HARNESS(name) void name(void)
+void ll2c_global_ctors(void);   /* static initialisers of the translated module run first, as before main() */
+#define HARNESS(name) static void name##_body(void); void name(void) { ll2c_global_ctors(); name##_body(); } static void name##_body(void)
 #define END_PATH() __CPROVER_assume(0)
 #define NATIVE_ONLY(x)
 #define CBMC_ONLY(x) x
@@ -55,7 +56,13 @@ void hn_end_path(void);
 #define OBSERVE(x) hn_observe(#x, (uint64_t)(x))
 #define OBSERVE_STR(x) hn_observe_str(#x, (const char*)(x))
 #define WITNESS(label) ((void)0)
-#define HARNESS(name) void name(void); __attribute__((constructor)) static void reg_##name(void) { hn_register(#name, name); } void name(void)
+#ifdef LL2C_TRANSLATED
+void ll2c_global_ctors(void);
+#define LL2C_RUN_CTORS() ll2c_global_ctors()
+#else
+#define LL2C_RUN_CTORS() ((void)0)   /* real build: the C++ runtime has run them */
+#endif
+#define HARNESS(name) static void name##_body(void); void name(void); __attribute__((constructor)) static void reg_##name(void) { hn_register(#name, name); } void name(void) { LL2C_RUN_CTORS(); name##_body(); } static void name##_body(void)
 #define END_PATH() hn_end_path()
 #define NATIVE_ONLY(x) x
 #define CBMC_ONLY(x)
